@@ -268,3 +268,23 @@ def fill_buf_sites(fb):
             out.append({"fn": k, "block": b, "callee": fk, "class": cls, "window": sorted(set(window)),
                         "consumers": sorted({ck.split("::")[-1] for ck, _ in cons})})
     return out
+
+
+def result_err_ty(ty):
+    """Error type parameter of a `core::result::Result<T, E>` type string (None if not a Result)."""
+    pre = "core::result::Result<"
+    if not ty.startswith(pre) or not ty.endswith(">"):
+        return None
+    inner = ty[len(pre):-1]
+    depth = 0
+    last = None
+    for i, ch in enumerate(inner):
+        if ch in "<([":
+            depth += 1
+        elif ch in ">)]":
+            depth -= 1
+        elif ch == "," and depth == 0:
+            last = i
+    if last is None:
+        return None
+    return inner[last + 1:].strip()
